@@ -1727,6 +1727,12 @@ func c26(c *Ctx) {
 	// run interp on everything (in-process, fast)
 	for _, cs := range cases {
 		cs.in = runInterpIn(c, syntax.LangBash, dir, cs.text)
+		if cs.in.TimedOut {
+			// skeleton programs terminate: a 3 s timeout is the machine (16 shards, bash children),
+			// not the interpreter; only a program that also exceeds 60 s is reported as hanging
+			c.Hist["interp-slow-retry"]++
+			cs.in, _ = c26RunInterpT(c, cs.text, 60*time.Second)
+		}
 	}
 	// model = code
 	var dbg *os.File
@@ -2038,6 +2044,10 @@ func c26Mutants(src string) []string {
 
 // c26RunInterpErr is runInterp that also returns what the interpreter wrote to stderr.
 func c26RunInterpErr(c *Ctx, script string) (res ShellResult, stderr string) {
+	return c26RunInterpT(c, script, 3*time.Second)
+}
+
+func c26RunInterpT(c *Ctx, script string, timeout time.Duration) (res ShellResult, stderr string) {
 	dir := scratchDir(c)
 	defer os.RemoveAll(dir)
 	var errb bytes.Buffer
@@ -2054,7 +2064,7 @@ func c26RunInterpErr(c *Ctx, script string) (res ShellResult, stderr string) {
 			res.Err = "new: " + err.Error()
 			return
 		}
-		ctx, cancel := context.WithTimeout(context.Background(), 3*time.Second)
+		ctx, cancel := context.WithTimeout(context.Background(), timeout)
 		defer cancel()
 		err = r.Run(ctx, f)
 		res.Stdout = out.String()
